@@ -230,9 +230,16 @@ def build(rng, pattern, cell_cls, atol, n_copies=2, crossings=None, poses=None, 
                     v = np.cross(rad, rng.normal(size=3))
                     rot = rot.copy()
                     rot[j] += v / np.linalg.norm(v) * rng.uniform(2.0, 2.8) * atol
+        dels = pels
+        if d == "first_element_prefix":
+            # an exact copy of the geometry whose first atom is the one-letter element the pattern's first symbol begins with
+            # (C where the pattern has Cl): another element, hence no occurrence
+            if len(pels[0]) < 2 or not pels[0][:1].isupper():
+                continue
+            dels = [pels[0][:1]] + list(pels[1:])
         placed = place(rng, cell, rot, None, positions, min_sep)
         if placed is not None:
-            decoy_groups.append((d, add_group(placed[0], pels, "decoy:" + d)))
+            decoy_groups.append((d, add_group(placed[0], dels, "decoy:" + d)))
     for k in range(n_distractors):
         for _ in range(40):
             p = rng.uniform(0, 1, 3).dot(cell)
